@@ -161,7 +161,8 @@ def run(ck):
     binary = box["binary"]
     if quick:
         parallel(ck, lambda c: histories(c, binary, ck.seed, 50, 70, "seed%d" % ck.seed),
-                 lambda c: linearizable(c, binary, ck.seed, "lin%d" % ck.seed, 64, 1))
+                 lambda c: linearizable(c, binary, ck.seed, "lin%d" % ck.seed, 64, 1),
+                 lambda c: long_run(c, binary, 1500, 1))   # production checkpoint frequency across 1440; ranges of > 1000 certificates
     else:
         for i in range(6):
             histories(ck, binary, ck.seed + 1000 * i, 150, 110, "seed%d" % (ck.seed + 1000 * i))
@@ -184,11 +185,11 @@ def run(ck):
                        "interleavings are provoked (gate datastore, pipelined writers, GOMAXPROCS), not enumerated"]
 
 
-def long_run(ck, binary):
-    trace, _ = L.drive(ck, binary, "TestCertStoreLong", "long", dict(VERIF_SEED=ck.seed, VERIF_PUTS=3000))
+def long_run(ck, binary, puts=3000, crossings=2):
+    trace, _ = L.drive(ck, binary, "TestCertStoreLong", "long", dict(VERIF_SEED=ck.seed, VERIF_PUTS=puts))
     ev = L.validate(ck, "CertStoreTrace", trace, "long", timeout=2400)
     kinds, verdicts, _, small, real = L.stats(ck, ev, "long")
-    L.need(real >= 2, "long run did not cross 1440 and 2880")
+    L.need(real >= crossings, "long run did not cross the production checkpoints")
 
 
 def concurrent(ck):
